@@ -150,6 +150,7 @@ META["C13"] = {
 
 META["C12"] = {
     "race": True,
+    "slice_s": 100,
     "deadlock_is_violation": True,
     "budget": {"quick": 40, "thorough": 900},
     "stall_s": 40,
@@ -182,6 +183,7 @@ META["C20"] = {
 }
 
 META["C18"] = {
+    "slice_s": 200,
     "budget": {"quick": 25, "thorough": 600},
     "rule": "one run = a source and a target machine (no relations, no vetoing handlers) piped with one of Bind / BindMany / BindErr / BindAny / BindReady / BindConnected / flat Add+Remove pipes, the target handed to the binder behind an am.Api proxy whose EvAdd/EvRemove/Set are scheduling points, 1..2 tasks issuing bursts of Add/Remove/Toggle (AddErr for BindErr) on the piped source states, Multi states in a quarter of the runs; non-trivial = every run; distinct = distinct event-log hashes",
     "components": {"real": MACHINE_REAL + ["pkg/states/pipes", "pkg/rpc Server / Client / NetworkMachine (in the quarter of the runs whose target is a network machine: the real target sits behind a real rpc server and the pipes talk to the client's NetworkMachine)"], "stub": ["for network-machine targets the network is verifsim/simnet with instant delivery, optionally stalled while the source toggles"]},
@@ -196,6 +198,7 @@ META["C18"] = {
 
 RPC_COMPONENTS = {"real": MACHINE_REAL + ["pkg/rpc Server (export tracer, push ticker, Remote* handlers)", "cenkalti/rpc2 + encoding/gob", "pkg/rpc Client (handshake, reconnect, call retries, clock updates)", "pkg/rpc NetworkMachine"], "stub": ["the network: in-memory listener/conn pairs whose deliveries, stalls, cuts and dial failures are scheduled by the simulator (TCP order is kept inside a connection)"]}
 META["C09"] = {
+    "slice_s": 200,
     "budget": {"quick": 40, "thorough": 900},
     "stall_s": 90,
     "deadlock_is_violation": True,
@@ -211,6 +214,7 @@ META["C09"] = {
     "level_note": "trusts testing/synctest, the simulated network (ordered streams, deadlines on the fake clock), rpc2/gob run real",
 }
 META["C10"] = {
+    "slice_s": 200,
     "budget": {"quick": 40, "thorough": 900},
     "stall_s": 90,
     "rule": "the C09 system with 1..6 user states and mostly fault-free links: every (previous snapshot, next snapshot) pair the server turns into an update message (pushes, mutation replies, per-mutation chains) is applied by the real client to the real mirror and the mirror's new clock must be a source snapshot in source order and its queue tick one the source had with those clocks (so a wrong index space, delta or queue tick shows up as a clock the source never had); the handshake must hand over the source's clock exactly; drift is injected by dropping accounted pushes and by reordering a push against a reply; non-trivial = every run; distinct = distinct event-log hashes",
@@ -225,6 +229,7 @@ META["C10"] = {
 }
 
 META["C17"] = {
+    "slice_s": 60,
     "budget": {"quick": 40, "thorough": 900},
     "stall_s": 90,
     "rule": "one run = generated schema + single-caller mutation history with fake-time gaps + a tracking configuration drawn per run (tracked subset, MaxRecords 1..12 (thorough ..40), TrackRejected, one of Called/Changed allow or block list, batch size 1..10) with the in-memory backend and one persistent backend (bbolt / badger / gorm+sqlite; all three in thorough runs) attached to the same machine, Sync() calls interleaved, then the full log, four state queries (Active / Inactive+HTime / Activated / Deactivated+HTime) and a Sync-visibility probe with the Sync-forked writer parked; 1 run in 6 is an Export/Import round trip instead; non-trivial = at least one record retained; distinct = distinct plans",
@@ -240,6 +245,7 @@ META["C17"] = {
 }
 
 META["C16"] = {
+    "slice_s": 60,
     "budget": {"quick": 40, "thorough": 900},
     "stall_s": 120,
     "rule": "one run = a generated source machine (schema, single-caller history incl. queued, canceled, auto, check and Exception transitions) with the real telemetry tracer, a simulated connection, server.AcceptConn and the real am-dbg Debugger machine headless on a tcell simulation screen (fake time covers its debounce), a plain recording tracer on the source as the reference, optionally a second plain client machine and check (Can*) logging, then 2..8 commands through the debugger's own states (ScrollToTx / Fwd / Back / Fwd+Back / ToggleTool with one of six transaction filters), then in a third of the runs an export and an import into a second debugger; non-trivial = at least one transition traced; distinct = distinct plans",
@@ -253,6 +259,7 @@ META["C16"] = {
     "level_note": "trusts testing/synctest, the tcell simulation screen, the recording tracer",
 }
 META["C15"] = {
+    "slice_s": 60,
     "budget": {"quick": 45, "thorough": 900},
     "stall_s": 120,
     "rule": "one run = a real node Supervisor with drawn pool settings (Min/Max/Warm 0..6, WorkerErrKill 0..3, Heartbeat 5s..1m), its bootstrap machines, rpc Mux/Server/Client stacks and real Workers forked in memory through TestFork/TestKill, on the simulated network (a third of the runs with scheduler-chosen delivery order) and the fake clock; TestFork outcomes per fork (ok / error / slow by 1..12 s / never calls back) and 0..8 timed events (a worker stops, an error is reported for a worker, a connection is cut, extra Heartbeat / CheckPool rounds, work-status mutations on a worker, bursts of external ForkWorker requests); in a third of the runs every mutation of the supervisor machine waits after it is queued, so that several are in the queue before one runs; a tracer on the supervisor machine evaluates the pool oracle after every transition; non-trivial = the supervisor started; distinct = distinct plans",
